@@ -46,6 +46,19 @@ func main() {
 		fmt.Fprintln(os.Stderr, "usage: vrun <PROP> quick|thorough | vrun <PROP> --replay <file>")
 		os.Exit(2)
 	}
+	if args[0] == "build" {
+		repo := "/repo"
+		if r := os.Getenv("VERIF_REPO"); r != "" {
+			repo = r
+		}
+		bin, err := buildWorker(repo, args[1] == "race")
+		if err != nil {
+			fmt.Fprintln(os.Stderr, err)
+			os.Exit(3)
+		}
+		fmt.Println(bin)
+		return
+	}
 	prop := args[0]
 	spec, ok := props[prop]
 	if !ok {
@@ -248,7 +261,7 @@ func mergeExtra(dst map[string]interface{}, k string, v interface{}) {
 
 func countCases(bin, prop string, spec propSpec, tier string, seed int64, rdir string) (int, error) {
 	cmd := exec.Command(bin, "-engine", spec.Engine, "-prop", prop, "-tier", tier, "-seed", fmt.Sprint(seed), "-count")
-	cmd.Env = append(os.Environ(), "VERIF_RUNDIR="+rdir)
+	cmd.Env = append(os.Environ(), "VERIF_RUNDIR="+rdir, "GORACE=atexit_sleep_ms=0")
 	out, err := cmd.Output()
 	if err != nil {
 		return 0, fmt.Errorf("%v (%s)", err, out)
@@ -282,7 +295,7 @@ func runShard(bin, prop string, spec propSpec, tier string, seed int64, shard, s
 		}
 		cmd := exec.Command("bash", "-c", shell)
 		cmd.Env = append(os.Environ(),
-			"GORACE=halt_on_error=0 log_path="+filepath.Join(rdir, fmt.Sprintf("race-%d-%d", shard, attempt)),
+			"GORACE=halt_on_error=0 atexit_sleep_ms=0 log_path="+filepath.Join(rdir, fmt.Sprintf("race-%d-%d", shard, attempt)),
 			"VERIF_RUNDIR="+rdir, "GOTRACEBACK=all")
 		cmd.SysProcAttr = &syscall.SysProcAttr{Setpgid: true}
 		err := cmd.Run()
@@ -869,7 +882,7 @@ func replay(prop string, spec propSpec, repo, file string) int {
 		journal := filepath.Join(rdir, fmt.Sprintf("j-%d.jsonl", i))
 		cmd := exec.Command(bin, "-engine", spec.Engine, "-prop", prop, "-tier", rp.Tier, "-seed", fmt.Sprint(rp.Seed),
 			"-only", fmt.Sprint(rp.Idx), "-journal", journal, "-v")
-		cmd.Env = append(os.Environ(), "VERIF_RUNDIR="+rdir, "GORACE=halt_on_error=0")
+		cmd.Env = append(os.Environ(), "VERIF_RUNDIR="+rdir, "GORACE=halt_on_error=0 atexit_sleep_ms=0")
 		out, err := cmd.CombinedOutput()
 		recs := readJournal(journal)
 		reproduced := false
